@@ -23,8 +23,9 @@ PROP = "C16"
 RULE = ("cases: constructor-built plog models of every class of the JSON class map (All, Any, AtLeast incl. explicit sign, AtMost, Xor, "
         "ExactlyOne, XNor, Imply, Not, variable leaves incl. integer bounds, bare strings), nested to depth 4, explicit and generated ids, and "
         "configurators with defaulted Any/Xor; to_json -> json.dumps -> json.loads -> from_json. non-trivial: depth>=2; distinct by recipe digest")
-BUDGET = {"quick": (8, 200, 60), "thorough": (16, 3000, 900)}
+BUDGET = {"quick": (12, 220, 90), "thorough": (16, 2500, 1200)}
 CLASSES = ["All", "Any", "AtLeast", "AtMost", "Xor", "ExactlyOne", "XNor", "Imply", "Not", "ccAny", "ccXor", "Stingy"]
+PYTEST = True     # thorough tier also runs the repository's own tests under these monitors
 MANDATORY = ["judged:defaults-kept", "judged:same-leaves", "judged:same-truth", "judged:explicit-ids-kept", "judged:no-id-for-generated", "judged:config:default-prios",
              "judged:config:polyhedron"] + ["count:class:" + c for c in CLASSES]
 
@@ -75,9 +76,9 @@ def roundtrip_post(pre, args, kwargs, result):
     data = json.loads(text)
     if is_cfg:
         c14.clear_caches()
-        back = cc.StingyConfigurator.from_json(data)
+        back = ctx.call("StingyConfigurator.from_json", cc.StingyConfigurator.from_json, data)
     else:
-        back = pg.from_json(data)
+        back = ctx.call("from_json", pg.from_json, data)
     facts = mechanism_facts(self, graph, top, info)
     if adapters.is_leaf(back):
         ctx.check(False, "same-leaves", lambda: dict(wit, note="round trip returned a bare variable", back=repr(back)), facts)
